@@ -94,10 +94,10 @@ type c16Inst struct {
 }
 
 type c16Machine struct {
-	reg      map[string]string // dyn name -> shape
-	pristine map[string]c16Probe
-	insts    []*c16Inst
-	trace    []string
+	reg                                 map[string]string // dyn name -> shape
+	pristine                            map[string]c16Probe
+	insts                               []*c16Inst
+	trace                               []string
 	failedReg, mutated, readAfterMutate bool
 }
 
@@ -136,6 +136,38 @@ func (mc *c16Machine) checkName(t *rapid.T, name string, reps int) {
 func (mc *c16Machine) checkAll(t *rapid.T) {
 	for _, n := range c16Universe {
 		mc.checkName(t, n, 2)
+	}
+	mc.checkConflicts(t, 6)
+}
+
+// checkConflicts: a JSON document whose profile members name TWO different
+// registered profiles must be rejected on every call, whatever order the
+// register is iterated in.
+func (mc *c16Machine) checkConflicts(t *rapid.T, reps int) {
+	type pair struct{ a, va, b, vb string }
+	docs := []pair{{"psa-profile", P1Name, "eat-profile", P2Name}}
+	for _, n := range c16DynNames {
+		switch mc.reg[n] {
+		case "ext-p2":
+			docs = append(docs, pair{"eat-profile", n, "psa-profile", P1Name})
+		case "ext-p1":
+			docs = append(docs, pair{"psa-profile", n, "eat-profile", P2Name})
+		case "own-tag":
+			docs = append(docs, pair{"x-profile", n, "psa-profile", P1Name}, pair{"x-profile", n, "eat-profile", P2Name})
+		}
+	}
+	_, b2 := c16Body()
+	b2.CertRef = nil
+	for _, d := range docs {
+		o := modelJN(b2)
+		o.keys = append(o.keys, d.a, d.b)
+		o.vals = append(o.vals, jStr(d.va), jStr(d.vb))
+		doc := []byte(o.String())
+		for i := 0; i < reps; i++ {
+			if c, err := psatoken.DecodeClaimsFromJSON(doc); err == nil {
+				mc.fail(t, "a JSON document declaring two different registered profiles (%s=%q and %s=%q) was decoded as %T on call %d instead of being rejected", d.a, d.va, d.b, d.vb, c, i+1)
+			}
+		}
 	}
 }
 
@@ -382,6 +414,7 @@ func c16Run(t *rapid.T, st *Stats) {
 		case "probe":
 			mc.log("Probe")
 			mc.checkName(t, rapid.SampledFrom(c16Universe).Draw(t, "name"), 8)
+			mc.checkConflicts(t, 32)
 		}
 		mc.checkInstances(t)
 	}
@@ -414,7 +447,7 @@ func sortStrings(s []string) {
 }
 
 func TestC16_RegistryHistories(t *testing.T) {
-	st := NewStats("C16", "TestC16_RegistryHistories", "rapid state machine, every history starting from the pristine register (checkpoint hook), 1..30 steps over {Register(new name) as extension-of-P2 (shares eat-profile) / extension-of-P1 (shares psa-profile) / own JSON member; Register(existing name: built-in, the default entry, previously added); Register(claims type without profile field / without json tag); NewClaims(name); Decode CBOR/JSON of a token declaring name, repeated 32x; Mutate(instance k) through every setter, through every exported pointer/slice in place, through returned component objects and the container; Probe}. 0..8 extra profiles. Oracle: model register name->shape; after every registration (successful or not) the complete probe battery (NewClaims, CBOR decode, JSON decode for 12 names: type, reported profile, validity) must equal the model's expectation: unchanged for every name not registered by this step; every created/decoded instance has a deep fingerprint equal to the first one obtained the same way and is never the same object as another; after every step every untouched instance's fingerprint is unchanged; repeated JSON dispatch gives one outcome. Non-trivial = history contains a failed registration or a mutate followed by a create/decode; distinct = history")
+	st := NewStats("C16", "TestC16_RegistryHistories", "rapid state machine, every history starting from the pristine register (checkpoint hook), 1..30 steps over {Register(new name) as extension-of-P2 (shares eat-profile) / extension-of-P1 (shares psa-profile) / own JSON member; Register(existing name: built-in, the default entry, previously added); Register(claims type without profile field / without json tag); NewClaims(name); Decode CBOR/JSON of a token declaring name, repeated 32x; Mutate(instance k) through every setter, through every exported pointer/slice in place, through returned component objects and the container; Probe}. 0..8 extra profiles. Oracle: model register name->shape; after every registration (successful or not) the complete probe battery (NewClaims, CBOR decode, JSON decode for 12 names: type, reported profile, validity) must equal the model's expectation: unchanged for every name not registered by this step; every created/decoded instance has a deep fingerprint equal to the first one obtained the same way and is never the same object as another; after every step every untouched instance's fingerprint is unchanged; repeated JSON dispatch gives one outcome, and a document naming two different registered profiles is rejected on each of 32 calls. Non-trivial = history contains a failed registration or a mutate followed by a create/decode; distinct = history")
 	st.Require = []string{"failed-registration", "mutate-then-read", "registered=0", "registered=1", "registered=3"}
 	defer st.Flush(t)
 	registerMu.Lock()
